@@ -191,6 +191,21 @@ def catalog(tier="quick"):
                     compare_outputs=False)
     out.append(("empty-components", make_empty))
 
+    def make_assigned(sym):
+        # parameter values that only an assignment (or an FLL text) produces: the constructors of Triangle and Trapezoid rewrite a NaN
+        # last vertex (two-vertex shorthand); `term: open Triangle 0.000 1.000 nan` is expressible and must survive as it is
+        nan = float("nan")
+        a0, a1, a2, b0, b1, b2, b3 = (sym(n, "p") for n in ("a0", "a1", "a2", "b0", "b1", "b2", "b3"))
+        blocks = [{"name": "rules", "conjunction": "Minimum", "disjunction": "Maximum", "implication": "Minimum", "activation": ("General",),
+                   "rules": ["if X is open then O is a", "if X is b or X is shelf then O is b"]}]
+        sp = base(inputs=[{"name": "X", "terms": [("Triangle", "open", a0, a1, a2), T_B, ("Trapezoid", "shelf", b0, b1, b2, b3)]}],
+                  assign=[(("input_variables", 0, "terms", 0, "right"), nan), (("input_variables", 0, "terms", 2, "bottom_right"), nan)],
+                  blocks=blocks, compare_outputs=False)
+        # what the constructors make of the same arguments (the two-vertex shorthands): the signature of the finding recorded for C15
+        sp["shorthand_spec"] = base(inputs=[{"name": "X", "terms": [("Triangle", "open", a0, a1, nan), T_B, ("Trapezoid", "shelf", b0, b1, b2, nan)]}], blocks=blocks)
+        return sp
+    out.append(("special/nan-vertex-assigned", make_assigned))
+
     def make_weights(sym):
         return base(blocks=[{"name": "rb", "conjunction": "Minimum", "disjunction": "Maximum", "implication": "Minimum", "activation": ("General",),
                              "rules": ["if X is a then O is a", "if X is b then O is b", "if X is not b then O is a"]}],
